@@ -9,6 +9,7 @@ From Coq Require Import List.
 From Coq Require Import ZArith NArith.
 From DepsDev Require Import Lib.Base Lib.Order Lib.Interleave Gen.ResolveTables Resolve.Attr Resolve.MatchReq
   Resolve.MatchReq_proofs Resolve.Client Resolve.Client_proofs Resolve.Purity_proofs.
+From DepsDev Require Properties.C12.
 Import ListNotations.
 
 (* Resolving never changes what the client subsequently reports: no lookup writes. *)
@@ -47,23 +48,18 @@ Print Assumptions C05_concurrent_store.
 (* Insertion order: two histories of additions that leave the same live versions in a
    package (for instance the same additions in another order) make the client report the
    same Versions and the same MatchingVersions for every requirement, hence give every
-   resolver the same answers.  Side conditions as in C12: the comparator laws, the repaired
-   AddVersion, and for Maven/PyPI no two distinct spellings that compare equal (known
-   finding F-C12-1). *)
-Theorem C05_insertion_order : forall O var ops1 ops2 k vs1 vs2,
-  laws_ok O -> var <> Current ->
-  var = FixAssignSort \/ N.eqb (pk_sys (vk_pkg k)) sys_npm = false ->
+   resolver the same answers.  Stated for the tree with the C12/C14 repairs in (the variant
+   tied to the tree is detected on every run by replaying the recorded witnesses);
+   Properties/C12.v has the general form with its side conditions and the refuted forms
+   for the earlier variants. *)
+Theorem C05_insertion_order : forall O ops1 ops2 k vs1 vs2,
+  laws_ok O ->
   Forall (add_parses O) ops1 -> Forall (add_parses O) ops2 ->
   Forall add_concrete ops1 -> Forall add_concrete ops2 ->
   (forall k', vk_pkg k' = vk_pkg k -> option_map fst (last_add ops1 k') = option_map fst (last_add ops2 k')) ->
-  (N.eqb (pk_sys (vk_pkg k)) sys_npm = false -> no_equal_distinct O (pk_sys (vk_pkg k)) vs1) ->
-  versions_of (run O var ops1) (vk_pkg k) = Ok vs1 ->
-  versions_of (run O var ops2) (vk_pkg k) = Ok vs2 ->
+  versions_of (run O var_repaired ops1) (vk_pkg k) = Ok vs1 ->
+  versions_of (run O var_repaired ops2) (vk_pkg k) = Ok vs2 ->
   vs1 = vs2 /\
-  matching_versions O (run O var ops1) k = matching_versions O (run O var ops2) k.
-Proof.
-  intros O var ops1 ops2 k vs1 vs2 HL Hv Hc P1 P2 C1 C2 Hs NE H1 H2.
-  pose proof (versions_canonical O var HL ops1 ops2 (vk_pkg k) vs1 vs2 Hv Hc P1 P2 C1 C2 Hs NE H1 H2) as E.
-  split; [exact E | exact (matching_canonical O var ops1 ops2 k vs1 vs2 H1 H2 E)].
-Qed.
+  matching_versions O var_repaired (run O var_repaired ops1) k = matching_versions O var_repaired (run O var_repaired ops2) k.
+Proof. exact Properties.C12.C12_perm_repaired. Qed.
 Print Assumptions C05_insertion_order.
